@@ -64,7 +64,9 @@ func (t *Segment) Value(buffer []byte) []byte {
 		result = append(result, buffer[t.Start:t.Stop]...)
 	}
 	if t.ForceNewline && len(result) > 0 && result[len(result)-1] != '\n' {
-		result = append(result, '\n')
+		// result may be a subslice of the buffer: limit its capacity
+		// so that append never writes into the buffer.
+		result = append(result[:len(result):len(result)], '\n')
 	}
 	return result
 }
